@@ -607,6 +607,7 @@ func main() {
 			res.AddSub(*x)
 		}
 	}
+	runLarge(res, o.Shard, o.Shards)
 	sig.Cleanup()
 	core.Finish(res, t0)
 }
@@ -630,11 +631,22 @@ func replay(path string) {
 		Replay struct {
 			Config string `json:"config"`
 			Ops    []op   `json:"ops"`
+			Large  int    `json:"large"`
 		} `json:"replay"`
 	}
 	if err := json.Unmarshal(data, &a); err != nil {
 		fmt.Println(err)
 		os.Exit(2)
+	}
+	if a.Replay.Large > 0 {
+		_, v := largeOne(a.Replay.Large)
+		sig.Cleanup()
+		if v != nil {
+			fmt.Printf("VIOLATION property=C14 replay=%s\n  %s\n", path, v.What)
+			os.Exit(1)
+		}
+		fmt.Println("replay: no violation")
+		return
 	}
 	ops := make([]seqx.Op, len(a.Replay.Ops))
 	for i, x := range a.Replay.Ops {
